@@ -145,6 +145,19 @@ def badtype_specs(vec):
             ('nsz9.stone', 'namespace nsz9\n\nroute q(Void, Void, Void)\n')]
 
 
+def subtype_specs(vec):
+    c = vec['c']
+    a = ['namespace nsa', '', 'struct Base', '    union', '        s S'] + (['        t T'] if c['listed'] else []) + \
+        ['    x Int32', '', 'struct S extends Base', '    y Int32', '']
+    b = ['namespace nsb', '', 'import nsa', '', 'struct Other', '    o Int32', '']
+    ext = ['struct %s extends %sBase' % (c['name'], '' if c['where'] == 'nsa' else 'nsa.'), '    z Int32', '']
+    if c['where'] == 'nsa':
+        a += ext
+    else:
+        b += ext
+    return [('nsa.stone', '\n'.join(a)), ('nsb.stone', '\n'.join(b))]
+
+
 class LitJudge(Judge):
     """params: {'prop': 'C01'|'C03'}"""
 
@@ -185,6 +198,9 @@ class LitJudge(Judge):
         elif mode == 'badtype':
             specs = badtype_specs(obj)
             what = 'the name %s written as the type of a %s' % (obj['n'], obj['site'])
+        elif mode == 'subtype':
+            specs = subtype_specs(obj)
+            what = 'struct %s.%s extending nsa.Base (which lists nsa.S%s)' % (obj['c']['where'], obj['c']['name'], ' and it' if obj['c']['listed'] else ', not it')
         elif mode == 'annot':
             specs = annot_specs(obj)
             what = 'annotation(s) %s on %s of type %s' % (
